@@ -17,6 +17,10 @@
 #define __CPROVER_assert(c, msg) assert((c) && msg)
 #define __CPROVER_assume(c) do { if (!(c)) abort(); } while (0)
 #define VF_DUMMY_INIT = 0
+/* spliced loop contracts are verifier-only text */
+#define __CPROVER_loop_invariant(...)
+#define __CPROVER_decreases(...)
+#define __CPROVER_assigns(...)
 #define VF_CHECK_WRITE_SRC(p, n) ((void)0)
 #define VF_CHECK_READ_DST(p, n) ((void)0)
 #define VF_CHECK_DELETE(p, k) ((void)0)
